@@ -635,6 +635,11 @@ func (env *SpecEnv) ident(name string) SpecVal {
 	}
 	if env.locals && !env.inOld {
 		if a := env.findLocal(name); a != nil {
+			if os.Getenv("GOVC_DEBUG_LOCALS") != "" {
+				if _, isParam := fx.params[name]; !isParam {
+					fmt.Fprintf(os.Stderr, "LOCAL %s %s\n", fx.key, name)
+				}
+			}
 			et := a.Type().(*types.Pointer).Elem()
 			if a.Heap {
 				ref, ok := fx.vals[a]
